@@ -45,7 +45,14 @@ EXPLANATION = (
     "a plan entry>); the slot list starts as nop for every agent in the given order. C15.thread -- the step pre-state is the initial "
     "state of the problem, advanced by apply_actions(domain, pre-state, non-nop members of the slot list). C15.agent / C15.extract -- "
     "actions are read in match order, lower-cased, name first, parameters the rest; the executing agent is the first parameter of the "
-    "action that is an agent name."
+    "action that is an agent name; the plan text is the text the regular expression scans (re.<scan>(pattern, text) / <compiled>.<scan>(text)), "
+    "never the pattern. C15.members also: a slot that holds a nop is skipped, it does not end the walk over the members. C15.drain -- the "
+    "remaining plan only shrinks (pop), so emptiness is stable: under the valuation `not empty` of every emptiness / length test (len(plan) <op> c, "
+    "truth value, == [], locals that hold the length or a test of it, with the number of pops in between taken into account) no normal return is "
+    "reachable (no action is left behind), and from the entry and from behind every pop, under `empty from here on` (after a pop that filled a "
+    "further slot of the step: and the candidate's slot occupied, until the next slot list is created), no plan[0] / plan.pop() is reachable "
+    "(a valid plan does not make the conversion raise). C15.once counts joint actions per turn that pops the first action of a step (a turn that "
+    "only finds the plan empty appends nothing)."
 )
 UNDECIDED = "that every action is kept exactly once, per-agent order, and equality of the final states, for all plans"
 
@@ -287,6 +294,24 @@ def rule_once(repo: Repo) -> RuleResult:
     app_nodes = {g.node_containing(a) for a in apps}
     in_loop = all(head in _enclosing_loops(g, n) for n in app_nodes)
     at_least, at_most = U.per_iteration(g, head, app_nodes)
+    if not at_least and app_nodes:
+        # a turn that takes nothing from the plan (the loop's own end test written as `while True: if not plan: break`, or behind an inlined
+        # helper) appends nothing and loses nothing: what counts is that every turn that pops the first action of a step appends a joint action
+        _creation, node_of_store, later = _packing_stores(x)
+        stored_later = [s for s in x.stores if node_of_store[id(s)] in later]
+        first_pops = [c for c in L.calls_in(x.kf.node) if isinstance(c.func, ast.Attribute) and c.func.attr == "pop" and x.only(c.func.value, (f"param:{x.plan}",))
+                      and not any(any(q is c for q in U.flows_from(p, s.value)) for s in stored_later)]
+        pop_nodes = {g.node_containing(c) for c in first_pops} - {None}
+        if pop_nodes and all(head in _enclosing_loops(g, n) for n in pop_nodes):
+            free: Set[int] = set()
+            for n in pop_nodes:
+                for m, _l in g.succ[n]:
+                    if m not in app_nodes and m != head:
+                        free |= C.reachable_from(g, m, avoid=set(app_nodes) | {head})
+            before: Set[int] = set()
+            for m in [m for m, l in g.succ[head] if l == "iter"]:
+                before |= C.reachable_from(g, m, avoid=pop_nodes | {head})
+            at_least = g.exit not in free and not any(m == head for n in free for m, _l in g.succ[n]) and not (before & app_nodes)
     built = bool(apps) and all(from_slots(a.args[0]) for a in apps)
     if at_least and at_most and built and in_loop:
         r.ok({"appends_per_step": 1, "built_from": "the slot list of the step"})
@@ -587,6 +612,40 @@ def rule_agent(repo: Repo) -> RuleResult:
     return r
 
 
+# functions that scan a text with a regular expression: called on the `re` module they take (pattern, string, ..), called on a compiled pattern
+# (string, ..) -- the plan text has to be the text that is scanned, never the pattern
+REGEX_SCANNERS = ("finditer", "findall", "search", "match", "fullmatch")
+REGEX_MODULE_ONLY = ("split", "sub", "subn")       # also methods of str: regular-expression calls only when they are called on the module
+
+
+def _regex_scans(x: _Ctx) -> List[Tuple[ast.Call, Optional[ast.AST], Optional[ast.AST]]]:
+    """(call, pattern operand, scanned-text operand) of every regular-expression scan in the extraction step"""
+    mod = x.E.raw.mod
+    local = {n.id for n in ast.walk(x.ef.node) if isinstance(n, ast.Name) and isinstance(n.ctx, ast.Store)} | set(x.ef.params)
+    out = []
+    for c in L.calls_in(x.ef.node):
+        on_module = False
+        if isinstance(c.func, ast.Attribute) and c.func.attr in REGEX_SCANNERS + REGEX_MODULE_ONLY:
+            v = c.func.value
+            on_module = isinstance(v, ast.Name) and v.id not in local and mod.imports.get(v.id) == ("re", None)
+            if not on_module and c.func.attr in REGEX_MODULE_ONLY:
+                continue
+        elif isinstance(c.func, ast.Name) and c.func.id not in local and mod.imports.get(c.func.id, (None, None))[0] == "re" \
+                and mod.imports[c.func.id][1] in REGEX_SCANNERS + REGEX_MODULE_ONLY:
+            on_module = True
+        else:
+            continue
+        kws = {k.arg: k.value for k in c.keywords if k.arg}
+        if any(isinstance(a, ast.Starred) for a in c.args) or any(k.arg is None for k in c.keywords):
+            out.append((c, None, None))
+        elif on_module:
+            spos = 2 if (c.func.attr if isinstance(c.func, ast.Attribute) else mod.imports[c.func.id][1]) in ("sub", "subn") else 1
+            out.append((c, c.args[0] if c.args else kws.get("pattern"), c.args[spos] if len(c.args) > spos else kws.get("string")))
+        else:
+            out.append((c, c.func.value, c.args[0] if c.args else kws.get("string")))
+    return out
+
+
 def rule_extract(repo: Repo) -> RuleResult:
     r = RuleResult("C15.extract", "plan actions are read in match order, lower-cased; name = first token, parameters = the rest, agent = a parameter that is an agent name",
                    "keeps every action and each agent's relative order")
@@ -633,6 +692,24 @@ def rule_extract(repo: Repo) -> RuleResult:
         r.ok({"actions": "ActionCall(tokens[0], tokens[1:]) per match, in order"})
     else:
         r.fail(Finding("C15.extract", x.c, "extraction", "plan actions are not extracted one per match, in order, as (name, parameters)"))
+    # the plan text is what the regular expression scans
+    def from_text(e: Optional[ast.AST]) -> bool:
+        try:
+            return e is not None and any(q[0] == text for q in p.trace(e))
+        except KeyError:
+            return False
+
+    for c, pat, scanned in _regex_scans(x):
+        if pat is None and scanned is None:
+            continue
+        if not (from_text(pat) or from_text(scanned)):
+            continue
+        r.site(x.site(c, "regular-expression scan of the plan text"))
+        if from_text(pat) or not from_text(scanned):
+            r.fail(Finding("C15.extract", x.c, "regex-operands", f"`{unparse(c, 70)}`: the plan text is handed over as the PATTERN, the component expression as the text "
+                           f"that is scanned: nothing matches and every action of the plan is lost", node=c))
+        else:
+            r.ok({"scan": unparse(c.func, 40), "scanned_text": "the plan text", "pattern": "not computed from the plan text"})
     r.require_sites(1)
     return r
 
@@ -766,6 +843,14 @@ def rule_members(repo: Repo) -> RuleResult:
                     r.fail(Finding("C15.members", x.c, "walk-left-early", f"the walk over `{what}` can end before the last member although every test passes: "
                                    f"the remaining members never reach the interference test", node=w.node))
                     bad = True
+                # an idle (nop) slot is skipped, it does not end the walk: the members behind it are part of the step too
+                sc_nop = dict(GOOD)
+                sc_nop["member-is-nop"] = True
+                seen_nop = V.reach(sc_nop, start=starts, avoid={head})
+                if not bad and any(n not in body and n != head and n != g.raise_ for n in seen_nop):
+                    r.fail(Finding("C15.members", x.c, "walk-left-at-nop-member", f"the walk over `{what}` ends at the first slot that holds a nop: the members in the "
+                                   f"slots behind it (agents later in the given agent order) never reach the interference test", node=w.node))
+                    bad = True
                 groups: Dict[str, Set[int]] = {}
                 for key, nodes in w.uses.items():
                     for n in nodes:
@@ -820,6 +905,297 @@ def rule_members(repo: Repo) -> RuleResult:
         r.ok({"accumulated_sets": len(acc_ops)})
     return r
 
+# --------------------------------------------------------------------------------------------------------------- C15.drain
+# ways a list loses / gains elements: the emptiness argument of C15.drain needs the remaining plan to shrink only
+PLAN_GROWERS = ("append", "extend", "insert", "__iadd__", "__setitem__")
+PLAN_EMPTY = "plan-empty"
+_LEN_OPS = {ast.Gt: lambda n, c: n > c, ast.GtE: lambda n, c: n >= c, ast.Lt: lambda n, c: n < c, ast.LtE: lambda n, c: n <= c,
+            ast.Eq: lambda n, c: n == c, ast.NotEq: lambda n, c: n != c}
+
+
+def _for_all_from(lower: int, op: type, c: int) -> Optional[bool]:
+    """the value of `n <op> c` when it is the same for every n >= lower (a plan of unknown length), else None"""
+    at_low, at_far = _LEN_OPS[op](lower, c), _LEN_OPS[op](max(abs(c), lower) + 2, c)
+    if op in (ast.Gt, ast.GtE, ast.Lt, ast.LtE):
+        return at_low if at_low == at_far else None         # monotone in n
+    if op is ast.Eq:
+        return False if c < lower else None
+    return True if c < lower else None
+
+
+def _packing_stores(x: _Ctx) -> Tuple[Set[int], Dict[int, int], Set[int]]:
+    """(nodes that create the slot list of a step, CFG node of every store into it, nodes of the stores that can follow another store of the same step)"""
+    g = x.g
+    creation = {g.node_containing(o) for o in x.slot_nodes} - {None}
+    node = {id(s): g.node_of(s) for s in x.stores}
+    later: Set[int] = set()
+    for s in x.stores:
+        after: Set[int] = set()
+        for m, _l in g.succ[node[id(s)]]:
+            after |= C.reachable_from(g, m, avoid=creation)
+        later |= {n for n in node.values() if n in after}
+    return creation, node, later
+
+
+def _evaluated_under(x: _Ctx, expr: ast.AST, tv) -> bool:
+    """inside its statement the expression is not cut off by a conditional expression / short-circuit operand / comprehension filter that `tv` decides"""
+    pm = L.parents_of(x.kf)
+    cur = expr
+    while cur in pm and not isinstance(cur, ast.stmt):
+        par = pm[cur]
+        if isinstance(par, ast.IfExp) and cur is not par.test:
+            t = C.eval3(par.test, tv)
+            if t is not None and (cur is par.body) != t:
+                return False
+        if isinstance(par, ast.BoolOp):
+            i = next(k for k, v in enumerate(par.values) if v is cur)
+            for prev in par.values[:i]:
+                pv = C.eval3(prev, tv)
+                if (isinstance(par.op, ast.And) and pv is False) or (isinstance(par.op, ast.Or) and pv is True):
+                    return False
+        if isinstance(par, U.COMPS) and not isinstance(cur, ast.comprehension):
+            if any(C.eval3(c, tv) is False for gen in par.generators for c in gen.ifs):
+                return False
+        cur = par
+    return True
+
+
+class _PlanLength:
+    """Tests of the length of the remaining plan as atoms of the Verdict valuation (hook `Verdict.extra`).
+
+    The remaining plan only shrinks, by pop.  A test is an atom whose value depends on the scenario:
+      * `actions are left when the function returns`: the plan was non-empty all the time, its length where the test is evaluated is >= 1,
+        and >= 2 where a pop is still to come on every way to the exit (or lies between the place the length was taken and the test);
+      * `the pop P took the last action`: the length is 0 wherever it is taken after P, and 1 where it was taken before P with nothing but P
+        in between (a local that holds the length, or -- through the start environment -- a boolean local computed from it)."""
+
+    def __init__(self, x: _Ctx, pops: List[ast.Call]):
+        self.x, self.g, self.p = x, x.g, x.p
+        self.root = f"param:{x.plan}"
+        self.em = L.emptiness_matcher(x.p, {self.root: PLAN_EMPTY})
+        self.pop_nodes: Set[int] = {x.g.node_containing(c) for c in pops} - {None}
+        self.atoms: Dict[str, Tuple[type, int, int, Optional[int]]] = {}     # name -> (op, constant, lower bound when non-empty, pop in between)
+        self._after: Dict[int, Set[int]] = {}
+        for n in ast.walk(x.kf.node):
+            if isinstance(n, ast.Compare):
+                self.atom(n)
+
+    def is_plan(self, e: ast.AST) -> bool:
+        return self.x.only(e, (self.root,))
+
+    def after(self, n: int, avoid: frozenset = frozenset()) -> Set[int]:
+        key = (n, avoid)
+        if key not in self._after:
+            out: Set[int] = set()
+            for m, _l in self.g.succ[n]:
+                out |= C.reachable_from(self.g, m, avoid=set(avoid))
+            self._after[key] = out
+        return self._after[key]
+
+    def pops_between(self, d: int, u: int) -> Optional[Set[int]]:
+        """the pops that are executed between node d and node u: the empty set, {P} when every way from d to u passes P exactly once,
+        None when it cannot be told"""
+        if d == u:
+            return set()
+        reach = self.after(d, frozenset({d}))
+        between = {pn for pn in self.pop_nodes & reach if pn == u or u in self.after(pn, frozenset({d}))}
+        if not between:
+            return set()
+        if len(between) != 1:
+            return None
+        (pn,) = between
+        if pn == u or u in self.after(d, frozenset({d, pn})) or pn in self.after(pn, frozenset({d, u})):
+            return None
+        return {pn}
+
+    def length(self, e: ast.AST) -> Optional[Tuple[int, Set[int]]]:
+        """(node where the length is taken, pops between there and the place e is evaluated) when e is len(<remaining plan>) or a local
+        that holds it"""
+        if isinstance(e, ast.Call) and isinstance(e.func, ast.Name) and e.func.id == "len" and len(e.args) == 1 and not e.keywords:
+            n = self.g.node_containing(e)
+            return (n, set()) if n is not None and self.is_plan(e.args[0]) else None
+        if isinstance(e, ast.Name) and isinstance(e.ctx, ast.Load):
+            try:
+                use = self.p.node_of(e)
+                defs = sorted(self.p.rd.defs_reaching(use, e.id))
+            except KeyError:
+                return None
+            if len(defs) != 1 or defs[0] == self.g.entry:
+                return None
+            st = self.g.stmt[defs[0]]
+            val = st.value if isinstance(st, (ast.Assign, ast.AnnAssign)) and st.value is not None else None
+            if val is None or (isinstance(st, ast.Assign) and not (len(st.targets) == 1 and isinstance(st.targets[0], ast.Name))):
+                return None
+            if not (isinstance(val, ast.Call) and self.length(val) is not None):
+                return None
+            between = self.pops_between(defs[0], use)
+            return None if between is None else (defs[0], between)
+        return None
+
+    def atom(self, e: ast.AST) -> Optional[Tuple[str, bool]]:
+        if isinstance(e, ast.Compare) and len(e.ops) == 1:
+            for a_, b_, flip in ((e.left, e.comparators[0], False), (e.comparators[0], e.left, True)):
+                if isinstance(b_, ast.Constant) and type(b_.value) is int:
+                    ln = self.length(a_)
+                    if ln is None:
+                        continue
+                    op = type(e.ops[0])
+                    if flip:
+                        op = {ast.Lt: ast.Gt, ast.Gt: ast.Lt, ast.LtE: ast.GtE, ast.GtE: ast.LtE}.get(op, op)
+                    if op not in _LEN_OPS:
+                        return None
+                    taken, between = ln
+                    stale = next(iter(between)) if between else None
+                    # a pop that is still to come on every way from here to the exit takes one more action
+                    lower = 2 if stale is not None or self.g.exit not in self.after(taken, frozenset(self.pop_nodes)) else 1
+                    name = f"plan-len:{op.__name__}:{b_.value}:{lower}:{stale}"
+                    self.atoms[name] = (op, b_.value, lower, stale)
+                    return name, True
+        a = self.em(e)
+        if a is not None:
+            return a.lstrip("!"), not a.startswith("!")
+        return None
+
+    def scenario(self, empty: bool, last_pop: Optional[int] = None, **more) -> Dict[str, bool]:
+        sc: Dict[str, bool] = {PLAN_EMPTY: empty}
+        for name, (op, c, lower, stale) in self.atoms.items():
+            if not empty:
+                v = _for_all_from(lower, op, c)
+            elif stale is None:
+                v = _LEN_OPS[op](0, c)
+            else:
+                v = _LEN_OPS[op](1, c) if stale == last_pop else None
+            if v is not None:
+                sc[name] = v
+        sc.update(more)
+        return sc
+
+    def known_after(self, pop_node: int) -> Dict[str, bool]:
+        """boolean locals whose value behind the pop is known when that pop took the last action: they were computed from the length of the
+        plan (then 1) with no other pop in between"""
+        out: Dict[str, bool] = {}
+
+        def one_left(e):
+            if isinstance(e, ast.Compare) and len(e.ops) == 1:
+                for a_, b_, flip in ((e.left, e.comparators[0], False), (e.comparators[0], e.left, True)):
+                    if isinstance(b_, ast.Constant) and type(b_.value) is int and self.length(a_) is not None and not self.length(a_)[1]:
+                        op = type(e.ops[0])
+                        if flip:
+                            op = {ast.Lt: ast.Gt, ast.Gt: ast.Lt, ast.LtE: ast.GtE, ast.GtE: ast.LtE}.get(op, op)
+                        return _LEN_OPS[op](1, b_.value) if op in _LEN_OPS else None
+            a = self.em(e)
+            if a is not None:
+                return a.startswith("!")        # one action is left: the plan is not empty
+            return None
+
+        for m, _l in self.g.succ[pop_node]:
+            for name in {n.id for n in ast.walk(self.x.kf.node) if isinstance(n, ast.Name) and isinstance(n.ctx, ast.Store)}:
+                defs = sorted(self.p.rd.defs_reaching(m, name))
+                if len(defs) != 1 or defs[0] in (self.g.entry, pop_node):
+                    continue
+                st = self.g.stmt[defs[0]]
+                val = st.value if isinstance(st, (ast.Assign, ast.AnnAssign)) and st.value is not None else None
+                if val is None or (isinstance(st, ast.Assign) and not (len(st.targets) == 1 and isinstance(st.targets[0], ast.Name))):
+                    continue
+                d = defs[0]
+                reach = self.after(d, frozenset({d}))
+                if pop_node not in reach or pop_node in self.after(pop_node, frozenset({d})):
+                    continue        # the pop can run more than once after the value was computed
+                if any(pn != pop_node and pop_node in self.after(pn, frozenset({d})) for pn in self.pop_nodes & reach):
+                    continue        # another pop in between
+                v = C.eval3(val, one_left)
+                if v is not None:
+                    out[name] = v
+        return out
+
+
+def rule_drain(repo: Repo) -> RuleResult:
+    """Every action exactly once needs the remaining plan to be consumed to its end, and a valid plan must not make the conversion raise.  The
+    remaining plan only shrinks (checked), so `it is empty` is stable from the moment it holds and `it is not empty` held all the time before a
+    moment at which it holds.  Hence (1) an execution that returns while actions are left is one on which every emptiness test said `not empty`:
+    under that valuation no normal return may be reachable; (2) from the function entry and from behind every pop, under the valuation `empty
+    from here on`, no read of the head of the plan (plan[0] / plan.pop(..)) may be reachable -- for a pop that filled a further slot of the same
+    step the slot tested for the (not re-read) candidate is occupied from there until the next slot list is created."""
+    r = RuleResult("C15.drain", "the step loop ends only when the remaining plan is empty and never reads the head of an empty plan",
+                   "keeps every action exactly once; every valid sequential plan is converted")
+    x = _ctx(repo)
+    g, p, V = x.g, x.p, x.V
+    root = f"param:{x.plan}"
+
+    def is_plan(e: ast.AST) -> bool:
+        return x.only(e, (root,))
+
+    pops, heads, growers = [], [], []
+    for n in ast.walk(x.kf.node):
+        if isinstance(n, ast.Call) and isinstance(n.func, ast.Attribute) and is_plan(n.func.value):
+            if n.func.attr == "pop":
+                pops.append(n)
+                heads.append(n)
+            elif n.func.attr in PLAN_GROWERS:
+                growers.append(n)
+        elif isinstance(n, ast.Subscript) and isinstance(n.ctx, ast.Load) and not isinstance(n.slice, ast.Slice) and is_plan(n.value):
+            heads.append(n)
+        elif isinstance(n, ast.Subscript) and isinstance(n.ctx, ast.Store) and is_plan(n.value):
+            growers.append(n)
+        elif isinstance(n, ast.AugAssign) and is_plan(n.target):
+            growers.append(n)
+    if not pops:
+        raise AnalysisError(f"{x.K.raw.qn}: the remaining plan is not consumed by pop(): the way the step loop ends is not interpreted")
+    creation, node, later = _packing_stores(x)
+    PL = _PlanLength(x, pops)
+    V.extra = PL.atom
+    try:
+        # (1) no normal return while actions are left
+        r.site(x.c.qn + " [end of the step loop]")
+        seen = V.reach(PL.scenario(False))
+        if g.exit in seen:
+            r.fail(Finding("C15.drain", x.c, "returns-with-actions-left", "the conversion can return although the remaining plan is not empty (no test on the way "
+                           "says that it is empty): the actions that are left are lost, the joint plan ends in another state"))
+        else:
+            r.ok({"returns_only_when": "the remaining plan is empty"})
+        # (2) no read of the head of an empty plan
+        r.site(x.c.qn + " [reads of the head of the remaining plan]")
+        stored_later = [s for s in x.stores if node[id(s)] in later]
+        bad: Dict[int, Tuple[ast.AST, str]] = {}
+        starts: List[Tuple[str, Optional[int], List[int], bool]] = [("the plan is empty from the start", None, [g.entry], False)]
+        for c in pops:
+            n = g.node_containing(c)
+            if n is None:
+                continue
+            packed = any(any(q is c for q in U.flows_from(p, s.value)) for s in stored_later)
+            starts.append((f"`{unparse(c, 40)}` took the last action", n, [m for m, _l in g.succ[n]], packed))
+        for why, pop_node, st, packed in starts:
+            known = PL.known_after(pop_node) if pop_node is not None else {}
+            sc = PL.scenario(True, pop_node)
+            if packed:
+                sc = PL.scenario(True, pop_node, occupied=True)
+                seen = V.reach_from(sc, st, avoid=creation, known=known)
+                again = [n for n in creation if n in seen]
+                if again:
+                    seen |= V.reach_from(PL.scenario(True, pop_node), again)
+            else:
+                seen = V.reach_from(sc, st, known=known)
+            tv = lambda e, sc=sc: V.tv(e, sc, None)
+            for h in heads:
+                n = g.node_containing(h)
+                if n in seen and id(h) not in bad and _evaluated_under(x, h, tv):
+                    bad[id(h)] = (h, why)
+        for h, why in bad.values():
+            r.fail(Finding("C15.drain", x.c, "head-read-of-empty-plan", f"`{unparse(h, 50)}` can be evaluated when the remaining plan is empty ({why}): a valid plan "
+                           f"makes the conversion raise IndexError instead of giving its joint plan", node=h))
+        if not bad:
+            r.ok({"head_reads": len(heads), "guarded_by": "an emptiness test of the remaining plan"})
+    finally:
+        V.extra = None
+    if r.findings:
+        # the argument needs a plan that only shrinks and helpers that are all read: otherwise what looks like a defect cannot be told from one
+        if growers:
+            raise AnalysisError(f"{x.K.raw.qn}: the remaining plan also grows ({unparse(growers[0], 50)}): emptiness of the plan is not stable")
+        if x.opaque:
+            raise AnalysisError(f"{x.K.raw.qn}: the private helper(s) {x.opaque} could not be inlined; what they do to the remaining plan is unknown")
+    r.require_sites(2)
+    return r
+
 
 def rules(repo: Repo, tier: str) -> List[RuleResult]:
-    return [rule_guard(repo), rule_once(repo), rule_thread(repo), rule_agent(repo), rule_extract(repo), rule_footprint(repo), rule_members(repo)]
+    return [rule_guard(repo), rule_once(repo), rule_thread(repo), rule_agent(repo), rule_extract(repo), rule_footprint(repo), rule_members(repo), rule_drain(repo)]
